@@ -321,3 +321,35 @@ Definition c20_ok (c : up_case) : bool :=
 
 Definition up_judge (c : up_case) : N :=
   (if up_corr c then 0 else 1) + (if c01_ok c then 0 else 2) + (if c20_ok c then 0 else 4).
+
+(* ------------------------------------------------------------------------------------------ *)
+(* Real-time interval cases (h-upstream kind rt-interval).  The model above has no clock: a tick
+   is an event.  These cases run the library's OWN tickers and its own, possibly shared, policy
+   objects (no harness wrapper) and record wall-clock delays; nothing is predicted by the model
+   ([rt_corr] = true), the predicate [rt_ok] is evaluated on the observation alone. *)
+Record rt_case := mkRtCase {
+  rt_interval_ms : N;         (* the interval of the policy of the stream under test *)
+  rt_slack_ms : N;            (* scheduling slack granted on top of it *)
+  rt_delays_ms : list N;      (* per small write: ms from its acceptance until the chunk carrying it reached the broker *)
+  rt_delivered : bool;        (* every small write reached the broker in a chunk of its own stream (at the latest at Close) *)
+  rt_accepted : list N;       (* per stream: points accepted by WriteDataPoints *)
+  rt_arrived : list N;        (* per stream: points in the (distinct) chunks that reached the broker *)
+  rt_closetot : list N        (* per stream: TotalDataPoints of its close request *)
+}.
+
+Definition rt_corr (c : rt_case) : bool := true.
+(* conservation totals at Close (the C01 side of the observation) *)
+Definition rt_totals_ok (c : rt_case) : bool :=
+  list_beq _ N.eqb (rt_accepted c) (rt_arrived c) && list_beq _ N.eqb (rt_accepted c) (rt_closetot c).
+(* an interval policy never holds accepted data longer than one interval (plus slack) *)
+Definition rt_ok (c : rt_case) : bool :=
+  forallb (fun d => d <=? rt_interval_ms c + rt_slack_ms c) (rt_delays_ms c)
+  && rt_delivered c && rt_totals_ok c.
+
+(* what the harness emits: an event-history case or a real-time case *)
+Inductive upx_case := UC (c : up_case) | RT (c : rt_case).
+Definition upx_judge (x : upx_case) : N :=
+  match x with
+  | UC c => up_judge c
+  | RT c => (if rt_corr c then 0 else 1) + (if rt_totals_ok c then 0 else 2) + (if rt_ok c then 0 else 4)
+  end.
